@@ -89,7 +89,8 @@ func (g *sm4GcmAsm) calculateFirstCounter(nonce []byte, counter []byte, H []byte
 func ensureCapacity(array []byte, asked int) (head, tail []byte) {
 	remaining := cap(array) - len(array)
 	if remaining >= asked {
-		head = array
+		// enough spare capacity: the result shares the backing array and is dst extended by the output
+		head = array[:len(array)+asked]
 	} else {
 		head = make([]byte, len(array)+asked)
 		copy(head, array)
